@@ -684,7 +684,11 @@ MANIFEST = dict(
          "it is a prefix code, hence injective up to list=tuple / True=1 / dict order; dict order never matters (sorted "
          "keys); the hashed key (version, verifier version, source, flattened kwargs, cdef sources joined by NUL) is "
          "injective for NUL-free source and cdefs, and its UTF-8 bytes too; refuted with a NUL in a cdef source "
-         "(witness replayed on the real code: known finding); the name is a function of tag, engine and the two CRCs.",
+         "(witness replayed on the real code: known finding); the name is a function of tag, engine and the two CRCs and, "
+         "through hex()/lstrip/rstrip and the 'x' left between the two numbers, injective in that pair: inequivalent inputs "
+         "share a name only if two different byte strings have the same CRC pair (C32_same_name_only_by_crc_collision). "
+         "The real formatting code is probed on every run with chosen CRC pairs; a clash is turned into two real inputs by "
+         "CRC32 forgery (GF(2) elimination over a comment in the source).",
     note="Trusted: Coq kernel; translator + primitive libraries (validated against CPython each run); CRC32 "
          "uninterpreted. Known finding nul_in_source.",
     design_ref="DESIGN.md §4 C32")
